@@ -145,6 +145,20 @@ CLAIMED["C18"] = dict(
     note=NOTE + "Partial: hash randomisation, interpreter state and per-token caches are runtime behaviour the model cannot exhibit; they are covered only by the differential runs.",
 )
 
+CLAIMED["C07"] = dict(
+    text="Theorems about the model of main_cli's control flow built on the C18 State model of handle_reports/emit_report: for every list "
+         "of report severities the compile block fails iff at least one report is not a warning (induction over the reports, closed "
+         "form of the latch), exit status is non-zero iff an error-severity report was issued, a failed run performs no write, a run with "
+         "only warnings succeeds and writes exactly the requested outputs in order, removing any subset of warnings (FilterHandler under "
+         "any -W selection) leaves exit status and writes unchanged, a critical report is an error. Tie: main_cli runs in a scratch "
+         "directory on programs with 0-3 planted faults/warnings x both report formats x random -W sets x all output selectors: exit and "
+         "number of files against the model; directly: exit != 0 iff errors > 0 iff an error report is displayed, directory untouched on "
+         "failure, identical (exit, files, bytes) across every -W / format choice.",
+    design_ref="DESIGN.md §5 C07",
+    technique="Lean 4 theorems (induction over report lists on the State model) + model/implementation correspondence on CLI runs",
+    note=NOTE + "Partial: unreadable/unwritable paths and other OS failures (which exit 1 without a diagnostic by design) are outside the model.",
+)
+
 PENDING_REASON = "check not built yet (build in progress; see DESIGN.md §8 for the order)"
 
 
